@@ -1060,6 +1060,22 @@ def history_reference(kind, method, H, t):
     return np.block([[H, S], [S, -H]])
 
 
+def own_reference(o, H):
+    """definition of the object o (a by-reference gate, or a 1-control ControlledGate around one) for the operator matrix H"""
+    T = type(o).__name__
+    if T == "BlockEncodingGate":
+        return history_reference("benc", o.method.name, H, 0.0)
+    if T == "TimeEvolutionGate":
+        return history_reference("tevo", None, H, float(o.t))
+    if T == "ControlledGate" and o.num_controls == 1:
+        R = own_reference(o.target_gate(), H)
+        if R is None:
+            return None
+        I, Z = np.eye(R.shape[0]), np.zeros_like(R)
+        return np.block([[I, Z], [Z, R]]) if int(o.ctrl_state[0]) == 1 else np.block([[R, Z], [Z, I]])
+    return None
+
+
 def check_history(ctx, pid, inp):
     """gate over a by-reference operator: as_matrix -> re-parametrise the operator in place -> as_matrix again, for the
     gate itself and for inverse() / copy() / ControlledGate made BEFORE and AFTER the change; every one of them must describe
@@ -1100,9 +1116,13 @@ def check_history(ctx, pid, inp):
             if pid == "C01" and (U.shape[0] != 2 ** o.num_wires or maxerr(U @ U.conj().T, np.eye(U.shape[0])) > tol):
                 ctx.fail("history:%s:not-unitary-after-operator-update" % kind, dict(inp, stage=stage, object=name),
                          "unitary matrix for the current operator", maxerr(U @ U.conj().T, np.eye(U.shape[0])))
-            if pid == "C02" and maxerr(U, want[rel]) > tol:
-                ctx.fail("history:%s:matrix-is-not-that-of-the-current-operator" % kind, dict(inp, stage=stage, object=name),
-                         "reference built from the operator's current matrix", maxerr(U, want[rel]))
+            if pid == "C02":
+                # C02 compares every object with ITS OWN definition (its method / time / control pattern) for the current
+                # operator; whether inverse() picked the right method / time is C03's question
+                W = own_reference(o, H)
+                if W is None or maxerr(U, W) > tol:
+                    ctx.fail("history:%s:matrix-is-not-that-of-the-current-operator" % kind, dict(inp, stage=stage, object=name),
+                             "reference built from the operator's current matrix", maxerr(U, W) if W is not None else "no reference")
             if pid == "C03":
                 try:
                     Ui = dense(o.inverse().as_matrix())
